@@ -575,6 +575,33 @@ structure SshKeyExt where
   asCrypto : Option Nat → Nat × Bool
   strong : Nat → Bool × Option Err
 
+/-! ### cmd/keymasterd `totpTokenManagerHandler` -/
+
+/-- effects: the sealed gate consulted, a refusal, a change of the loaded profile (name / enabled / delete of a token),
+the profile SAVED for a user, success -/
+inductive ManageEffect
+  | lockedGate
+  | fail (status : Nat)
+  | setName (name : Str)
+  | setEnabled (on : Bool)
+  | delete (index : Nat)
+  | save (user : Str)
+  | success
+deriving DecidableEq, Repr
+
+/-- externals: the sealed gate, `checkAuth`, `IsAdminUserAndU2F` (all translated separately), form parsing, the index
+parser, the profile load (profile, found, FROM CACHE, error), whether the token exists, the name pattern, the save -/
+structure ManageExt where
+  locked : Bool
+  checkAuth : Nat → authInfo × Option Err
+  parseForm : Option Err
+  adminAndU2F : Str → Nat → Bool
+  parseIndex : Str → Nat × Option Err
+  loadProfile : Str → Unit × Bool × Bool × Option Err
+  hasToken : Nat → Bool
+  nameOK : Str → Bool × Option Err
+  saveResult : Str → Option Err
+
 /-! ### cmd/keymasterd `consumeLoginChallenge` -/
 
 /-- `localUserData`: the pending challenge of a user; the two challenge pointers are compared by identity (numbers
